@@ -265,6 +265,32 @@ def mk_pred(p, ret='bool'):
     return lambda r: eval_pred(p, show_rxn(r))
 
 
+def stateful_pred(kind, data):
+    """a predicate whose answer depends on the calls made so far; returns (callable on a reaction SPEC, call log)"""
+    log = []
+    if kind == 'first_occurrence':                     # the seen-set idiom: True for the first reaction with a given stoichiometry
+        seen = set()
+
+        def f(rx):
+            log.append(rx)
+            key = dumps(rx[:4])
+            if key in seen:
+                return False
+            seen.add(key)
+            return True
+    elif kind == 'counter':                            # every other reaction
+        def f(rx):
+            log.append(rx)
+            return len(log) % 2 == 1
+    else:                                              # an iterator of booleans
+        it = iter(data)
+
+        def f(rx):
+            log.append(rx)
+            return next(it)
+    return f, log
+
+
 CONTAINERS = ['list', 'tuple', 'gen', 'filter', 'map', 'iter', 'reversed', 'dictvalues', 'ndarray', 'chain', 'deque']
 ONE_SHOT = ('gen', 'filter', 'map', 'iter', 'reversed', 'chain')
 
@@ -540,6 +566,8 @@ class C15(Property):
         'categorize_kw and the `query` operation inside histories (every system of the store is compared with its spec after every operation)',
         'upper_conc_bounds over concentrations spanning 1e-30 … 1e3 (trace species carrying a whole element): exact Fraction reference, the real '
         'double sums are compared to 1e-12 relative (same-sign terms); for dyadic inputs the comparison is exact',
+        'subset with an ARBITRARY (stateful) predicate: the pure model takes the list of answers (subsetAnswers); that the predicate is '
+        'consulted exactly once per reaction, in order, is a statement about calls: oracle only (call log)',
         'per_substance_varied: varied_spec covers success, varied keys, number of rows and the content of every row; the ORDER of the rows '
         '(C order, first varied substance slowest) is the definition of variedRows and is decided by the exact correspondence with numpy',
         'upper_conc_bounds with the default float64 dtype: driven by the correspondence only for compositions without a zero atom count '
@@ -603,7 +631,7 @@ class C15(Property):
         kinds = (['split'] * 24 + ['categorize'] * 12 + ['identify_equilibria'] * 8 + ['participation'] * 5 + ['effect'] * 5
                  + ['subset'] * 8 + ['add'] * 4 + ['add_rxns'] * 1 + ['iadd'] * 3 + ['iadd_rxns'] * 1 + ['eq'] * 3 + ['concatenate'] * 3
                  + ['make'] * 12 + ['as_reactions'] * 4 + ['check'] * 3 + ['any_effect'] * 2 + ['rxn_eq'] * 3
-                 + ['categorize_signed'] * 3 + ['categorize_kw'] * 5 + ['array_units'] * 1 + ['as_reactions_args'] * 2 + ['array_from_dict'] * 3 + ['array_from_list'] * 2 + ['dict_from_array'] * 2
+                 + ['categorize_signed'] * 3 + ['categorize_kw'] * 5 + ['subset_stateful'] * 5 + ['array_units'] * 1 + ['as_reactions_args'] * 2 + ['array_from_dict'] * 3 + ['array_from_list'] * 2 + ['dict_from_array'] * 2
                  + ['substance_index'] * 2 + ['varied'] * 2 + ['upper_bounds'] * 10 + ['history'] * 7)
         for _ in range(n):
             cases.append(self.gen_case(rng, rng.choice(kinds)))
@@ -698,6 +726,11 @@ class C15(Property):
                 spec['subs'] = [e for e in spec['subs'] if e[0] != k]
             return {'op': 'categorize_kw', 'sys': spec, 'checks': gen_checks(rng) if rng.random() < 0.4 else [],
                     'missing': rng.random() < 0.7, 'sort': rng.choice([None, True, False])}
+        if kind == 'subset_stateful':
+            spec = gen_sys(rng, dup_p=0.3)
+            k = rng.choice(['first_occurrence', 'counter', 'iterator'])
+            return {'op': 'subset_answers', 'sys': spec, 'checks': [], 'pred_state': k,
+                    'data': [rng.random() < 0.5 for _ in spec['rxns']]}
         if kind == 'as_reactions':
             pool = rng.sample(POOL, rng.randint(1, 5))
             rx = gen_equilibrium(rng, pool, 0.4)
@@ -902,6 +935,9 @@ class C15(Property):
             return None
         if c['op'] == 'array_from_dict' and c.get('dict_kind') == 'defaultdict':
             return dict(c, default=-77)
+        if c['op'] == 'subset_answers':
+            f, _ = stateful_pred(c['pred_state'], c['data'])
+            return dict(c, answers=[bool(f(rx)) for rx in c['sys']['rxns']])     # consulted once per reaction, in order
         if c['op'] == 'rxn_eq' and c.get('other', '').startswith('nonrxn'):
             return None                       # comparison with a non-Reaction object: oracle only
         return c
@@ -1002,6 +1038,11 @@ class C15(Property):
                     y, n = rs.subset(mk_pred(c['pred'], c.get('pred_ret', 'bool')), checks=tuple(c['checks']))
                 except ValueError as e:
                     return check_err(e)
+                return dumps([show_sys(y), show_sys(n)])
+            if op == 'subset_answers':
+                rs, _ = mk_sys(c['sys'])
+                f, _ = stateful_pred(c['pred_state'], c['data'])
+                y, n = rs.subset(lambda r: f(show_rxn(r)), checks=tuple(c['checks']))
                 return dumps([show_sys(y), show_sys(n)])
             if op in ('add', 'iadd', 'eq'):
                 a, _ = mk_sys(c['a'])
@@ -1285,6 +1326,34 @@ class C15(Property):
             return None if got == want and list(got) == sorted(got) else 'per_reaction_effect_on_substance(%r) = %s, expected %s' % (c['key'], got, want)
         if op == 'subset':
             return self._oracle_subset(c)
+        if op == 'subset_answers':
+            spec = c['sys']
+            rs, rxns = mk_sys(spec)
+            ids = {id(r): i for i, r in enumerate(rxns)}
+            f, log = stateful_pred(c['pred_state'], c['data'])
+            calls, answers = [], []
+
+            def pred(r):
+                calls.append(ids[id(r)])
+                a = f(show_rxn(r))
+                answers.append(bool(a))
+                return a
+            try:
+                y, n = rs.subset(pred)
+            except StopIteration:
+                return 'subset consulted the predicate more often than there are reactions (calls %s)' % calls
+            if calls != list(range(len(rxns))):
+                return 'subset consulted the predicate for reactions %s, expected each reaction once, in order' % calls
+            yes_i = [i for i, a in enumerate(answers) if a]
+            no_i = [i for i, a in enumerate(answers) if not a]
+            if [ids[id(r)] for r in y.rxns] != yes_i or [ids[id(r)] for r in n.rxns] != no_i:
+                return 'subset(stateful %s): parts hold reactions %s / %s, the answers %s give %s / %s' % (
+                    c['pred_state'], [ids[id(r)] for r in y.rxns], [ids[id(r)] for r in n.rxns], answers, yes_i, no_i)
+            keys = [k for k, _ in spec['subs']]
+            for part, idx in ((y, yes_i), (n, no_i)):
+                if list(part.substances) != [k for k in keys if any(k in s_keys(spec['rxns'][i]) for i in idx)]:
+                    return 'subset(stateful): substances of a part'
+            return None
         if op in ('add', 'iadd'):
             a, b = c['a'], c['b']
             A, _ = mk_sys(a)
